@@ -59,6 +59,13 @@ type Native struct {
 // atoms): it can only be converted back to a string.
 type SymBytes struct{ S Value }
 
+// JSONBlob is the result of json.Marshal in the VM: it remembers the value
+// (value-carrying stub); Unmarshal copies it back into a target of the same type.
+type JSONBlob struct {
+	T types.Type
+	V Value
+}
+
 type mapEntry struct{ K, V Value }
 
 // Map keeps insertion order; entries slices are copy-on-write so that undo is a
